@@ -460,8 +460,30 @@ func checkC11(p *Program, r *Report) {
 								other = bo.X
 							}
 							if ld, ok := other.(*ssa.UnOp); ok && ld.Op == token.MUL {
-								if _, isIdx := ld.X.(*ssa.IndexAddr); isIdx {
-									okStep = true
+								if ia, isIdx := ld.X.(*ssa.IndexAddr); isIdx {
+									// second sweep (`matchedBits[0]` for `[i]`, `i--` for `i++`): the element read is the one the
+									// loop counter of this header points at, and the counter advances by one
+									ix := ia.Index
+									if cv, isCv := ix.(*ssa.Convert); isCv {
+										ix = cv.X
+									}
+									if iph, isPh := ix.(*ssa.Phi); isPh && iph.Block() == b {
+										for jj, ee := range iph.Edges {
+											if !b.Dominates(b.Preds[jj]) {
+												continue
+											}
+											if inc, isInc := ee.(*ssa.BinOp); isInc && inc.Op == token.ADD && inc.X == ssa.Value(iph) {
+												if k1, isK := constInt(inc.Y); isK && k1 == 1 {
+													okStep = true
+												}
+											}
+										}
+										if !okStep {
+											step = "the leaf counter does not advance by one"
+										}
+									} else {
+										step = "the element read is not indexed by the leaf counter of the loop"
+									}
 								}
 							}
 						}
@@ -628,6 +650,7 @@ func flagPackRule(p *Program, r *Report, rule string, roots []*ssa.Function, min
 	type site struct {
 		fn            *ssa.Function
 		byteIdx, bitP string
+		src           string // builder sites: index term of the flag bit that is packed
 		size          string
 		pos           token.Pos
 		table         bool // unpacking through a byte → 8 bits expansion table
@@ -660,6 +683,12 @@ func flagPackRule(p *Program, r *Report, rule string, roots []*ssa.Function, min
 						for _, side := range []ssa.Value{or.X, or.Y} {
 							if sh, ok := side.(*ssa.BinOp); ok && sh.Op == token.SHL {
 								s := site{fn: fn, byteIdx: tb.Term(ia.Index).String(), bitP: tb.Term(sh.Y).String(), pos: st.Pos()}
+								// second sweep (`bits[0] << (i%8)`): the bit that is packed at position i is bit i of the list
+								if ld, ok := stripIntConv(sh.X).(*ssa.UnOp); ok && ld.Op == token.MUL {
+									if sia, ok := ld.X.(*ssa.IndexAddr); ok {
+										s.src = tb.Term(sia.Index).String()
+									}
+								}
 								// size of the Flags slice
 								for _, bb := range fn.Blocks {
 									for _, ii := range bb.Instrs {
@@ -785,6 +814,9 @@ func flagPackRule(p *Program, r *Report, rule string, roots []*ssa.Function, min
 		}
 		ok := s.byteIdx == ref.byteIdx && s.bitP == ref.bitP && strings.HasPrefix(s.byteIdx, "/(ind(#0,#1),#8)") && strings.HasPrefix(s.bitP, "%(ind(#0,#1),#8)")
 		r.Add(rule, FnName(s.fn), "flag bit i lives in byte i/8 at bit position i%8", s.pos, ok, "byte "+s.byteIdx+", bit "+s.bitP)
+		if s.src != "" {
+			r.Add(rule, FnName(s.fn), "the bit packed at position i is flag bit i", s.pos, s.src == "ind(#0,#1)", "source index "+s.src)
+		}
 		if s.size != "" {
 			r.Add(rule, FnName(s.fn), "flag bytes number ⌈bits/8⌉", s.pos, (strings.HasPrefix(s.size, "/(+(#7,len(") || strings.HasPrefix(s.size, "/(+(len(")) && strings.HasSuffix(s.size, ",#8)"), s.size)
 		}
